@@ -207,6 +207,26 @@ class Validated:
         return None
 
 
+def _lift_filters(e: ast.AST, guards: list[Any]) -> ast.AST:
+    """`sum([inc for g in groups if c1 if c2])` -- the per-group values collected in a list (a loop with `continue`
+    guards folded into a comprehension) and summed afterwards -- is read like the accumulating loop: the filters
+    become guards of the adding pass (`not c` -> c with outcome False), judged by the caller."""
+    if not (isinstance(e, ast.Call) and u(e.func) == "sum" and len(e.args) == 1 and not e.keywords
+            and isinstance(e.args[0], (ast.ListComp, ast.GeneratorExp)) and len(e.args[0].generators) == 1
+            and e.args[0].generators[0].ifs):
+        return e
+    comp = e.args[0]
+    g = comp.generators[0]
+    for c in g.ifs:
+        if isinstance(c, ast.UnaryOp) and isinstance(c.op, ast.Not):
+            guards.append((c.operand, False))
+        else:
+            guards.append((c, True))
+    gen = ast.GeneratorExp(elt=comp.elt, generators=[ast.comprehension(target=g.target, iter=g.iter, ifs=[], is_async=0)])
+    out = ast.Call(func=e.func, args=[gen], keywords=[])
+    return ast.fix_missing_locations(ast.copy_location(out, e))
+
+
 def advertised(prog: Program) -> dict[str, Any]:
     fn = prog.func(f"{MC}:PowerBoundsCalculator.calculate")
     if len(fn.params) != 3:
@@ -258,7 +278,8 @@ def advertised(prog: Program) -> dict[str, Any]:
         if len(slots) != 4:
             wiring_ok = False
             continue
-        per_return.append({role: agg_term(fold_loops(node, e, guards, follow), side) for role, e in slots.items()})
+        per_return.append({role: agg_term(_lift_filters(fold_loops(node, e, guards, follow), guards), side)
+                           for role, e in slots.items()})
     if not per_return:
         wiring_ok = False
 
@@ -740,6 +761,11 @@ CONTROLS = [
      "        if not request.adjust_power and not is_close_to_zero(distribution.remaining_power):\n"
      "            return OutOfBounds(request=request, bounds=self._get_bounds(pairs_data))\n"
      "        return distribution\n\n    async def _distribute_power(", "C17.ONLY"),
+    ("the enforced inclusion bound is summed with the built-in sum()", BMM,
+     "            inclusion_lower=math.fsum(\n", "            inclusion_lower=sum(\n", "C17.EXACT"),
+    ("the advertised inverter totals are summed with the built-in sum()", MC,
+     "                    math.fsum(bound.inclusion_lower for bound in inverter_bounds),\n",
+     "                    sum(bound.inclusion_lower for bound in inverter_bounds),\n", "C17.EXACT"),
 ]
 
 
@@ -970,11 +996,67 @@ def structural_controls(prog: Program) -> list[tuple[str, str, str, str, str]]: 
     return [(nm, module, *built.get(nm, (old, new)), rule) for nm, module, old, new, rule in CONTROLS]
 
 
+def check_exact(run: Run, prog: Program) -> None:
+    """C17.EXACT ("the inclusion bounds advertised and enforced are identical", and a power *on* an advertised bound
+    is accepted): the two sides must arrive at the same floating-point number, not only at the same real number.
+    They visit groups, batteries and inverters in independent orders (a set of frozensets on one side, a list built
+    from another set on the other), so every float reduction that feeds a bound -- over the groups, over a group's
+    inverters, over a group's batteries -- has to be independent of the order *and* the same operation on both
+    sides: `math.fsum` (exactly rounded).  The built-in `sum()` (compensated since CPython 3.12, still order
+    dependent) and an accumulating `acc += x` loop (plain left-to-right rounding) differ from each other and from
+    themselves under another order in the last bit."""
+    adv, enf = advertised(prog), enforced(prog)
+    agg = None
+    for m in (adv["fn"].module, enf["fn"].module, prog.modules.get(BDA_MOD)):
+        if m is not None and AGG_FN in getattr(m, "functions", {}):
+            agg = m.functions[AGG_FN]
+    if agg is None:
+        mod = prog.modules.get(BDA_MOD)
+        agg = mod.functions.get(AGG_FN) if mod is not None else None
+    if agg is None:
+        raise AnalysisError(f"C17.EXACT: the shared battery aggregation `{AGG_FN}` was not found")
+    sides = [("advertised", adv["fn"], adv["node"]), ("enforced", enf["fn"], prepared(prog, enf["fn"])), ("shared", agg, agg.node)]
+    n_exact = 0
+    for label, fn, node in sides:
+        run.analysed(fn.qual)
+        inexact: list[str] = []
+        for x in ast.walk(node):
+            if isinstance(x, ast.Call) and u(x.func) == "sum" and len(x.args) >= 1:
+                el = x.args[0].elt if isinstance(x.args[0], (ast.GeneratorExp, ast.ListComp)) else None
+                if isinstance(el, ast.Constant) and isinstance(el.value, int):
+                    continue                              # a count
+                if getattr(x, "_exact_sum", False):
+                    n_exact += 1
+                else:
+                    inexact.append(f"`{first_line(u(x), 70)}` (built-in sum, line {getattr(x, 'lineno', '?')})")
+            elif isinstance(x, (ast.For, ast.While)):
+                for st in ast.walk(x):
+                    if isinstance(st, ast.AugAssign) and isinstance(st.op, (ast.Add, ast.Sub)) \
+                            and not (isinstance(st.value, ast.Constant) and isinstance(st.value.value, int)) \
+                            and isinstance(st.target, (ast.Name, ast.Attribute)) and st not in _seen_aug:
+                        _seen_aug.append(st)
+                        inexact.append(f"`{first_line(u(st), 70)}` (accumulating loop, line {st.lineno})")
+        _seen_aug.clear()
+        run.check(not inexact, "C17.EXACT", fn.qual, f"{label} side: every float reduction feeding a bound is exactly rounded (math.fsum)",
+                  f"the {label} side reduces with an order-dependent, differently rounded operation: " + "; ".join(inexact[:6])
+                  + (f" (+{len(inexact) - 6} more)" if len(inexact) > 6 else "")
+                  + " -- the pool can advertise a bound that differs in the last bit from the one the distributor enforces "
+                  "(3 pairs with bounds 536.8 / 1941.1 / 2617.3: advertised 5095.200000000001, enforced 5095.2), and a request "
+                  "of exactly the advertised bound is answered OutOfBounds", node=fn.node, file=fn.file)
+    run.check(n_exact >= 3, "C17.EXACT", adv["fn"].qual, "exactly rounded reductions exist on the paths of the bounds",
+              f"only {n_exact} math.fsum reductions were found on the three sides (groups, inverters, batteries)",
+              node=adv["fn"].node, file=adv["fn"].file)
+
+
+_seen_aug: list[ast.AST] = []
+
+
 def run_rules(run: Run, prog: Program) -> None:
     check_agg(run, prog)
     check_acc(run, prog)
     check_only(run, prog)
     check_dist(run, prog)
+    check_exact(run, prog)
 
 
 def check(run: Run, prog: Program, tier: str) -> str:
@@ -987,14 +1069,17 @@ def check(run: Run, prog: Program, tier: str) -> str:
     run.rule("C17.DIST", "an admitted power is split over a group's inverters without entering an inverter's "
              "exclusion zone: every set-point is zero, a one-inverter set's whole allocation, or min(incl[i], R) "
              "under excl[i] <= R (C02.INV's rule, re-issued)")
+    run.rule("C17.EXACT", "advertised, enforced and shared aggregations reduce floats with math.fsum only (exactly rounded, "
+             "order independent): the two sides arrive at the same float, not only the same real number")
     run_rules(run, prog)
+    run.floor("C17.EXACT", 4)
     run.floor("C17.AGG", 14)
     run.floor("C17.ACC", 30)
     run.floor("C17.DIST", 4)
     run.floor("C17.ONLY", 1)
     from ..engine.controls import run_controls
 
-    parts = {"C17.AGG": check_agg, "C17.ACC": check_acc, "C17.DIST": check_dist, "C17.ONLY": check_only}
+    parts = {"C17.AGG": check_agg, "C17.ACC": check_acc, "C17.DIST": check_dist, "C17.ONLY": check_only, "C17.EXACT": check_exact}
     run_controls(run, structural_controls(prog), run_rules, tier, base_prog=prog, select=lambda rule: parts[rule])
     run.assume("inverter exclusion bounds satisfy lower <= 0 <= upper; lattice lemmas Σ_g max(a,b) >= "
                "max(Σa, Σb), Σ_g min(a,b) <= min(Σa, Σb), min_i x_i <= Σ_i x_i for x >= 0")
